@@ -213,6 +213,10 @@ func runC12(w *World, r *Report) {
 		})
 	}
 
+	// ---- pointer depth: every pointer level the encoder peels is counted, the nil level included
+	r.Rule("C12.pointer-depth", "internalMarshal counts a pointer level before it looks at it: the PointerNum increment dominates every other block of the peeling loop (the typed-nil exit included)", 1)
+	pointerDepthCheck(w, r, "C12.pointer-depth")
+
 	// ---- map keys: the writer's and the reader's treatment agree
 	r.Rule("C12.key-codec-symmetric", "map keys are json-encoded by the writer and json-decoded by the reader under the same condition (today: unconditionally)", 2)
 	{
@@ -541,4 +545,61 @@ func runC12(w *World, r *Report) {
 		}
 	}
 	_ = token.ADD
+}
+
+// pointerDepthCheck: see C12.pointer-depth.
+func pointerDepthCheck(w *World, r *Report, rule string) {
+	im := w.Fn("internal/serialization", "internalMarshal")
+	fPN := w.Field("internal/serialization", "internalStruct", "PointerNum")
+	var inc *ssa.Store
+	for _, fw := range fieldWrites(im) {
+		if sameField(fw.field, fPN) {
+			if st, ok := fw.in.(*ssa.Store); ok {
+				if b, ok := st.Val.(*ssa.BinOp); ok && b.Op == token.ADD {
+					inc = st
+				}
+			}
+		}
+	}
+	if inc == nil {
+		r.Fail(rule, "internalMarshal counts pointer levels", im.Pos(), "no PointerNum++ found")
+	} else {
+		// the loop containing the increment
+		var loop *loopInfo
+		for _, li := range naturalLoops(im) {
+			li := li
+			if li.body[inc.Block()] && (loop == nil || len(li.body) < len(loop.body)) {
+				loop = &li
+			}
+		}
+		okDom := loop != nil
+		where := ""
+		if loop != nil {
+			for b := range loop.body {
+				if b == loop.header || b == inc.Block() {
+					continue
+				}
+				if !inc.Block().Dominates(b) {
+					okDom = false
+					where = w.pos(blockPos(b))
+				}
+			}
+			// exits of the loop other than from the header leave after the increment
+			for _, ex := range earlyExits(im) {
+				if ex.loop.header == loop.header && !(ex.from == inc.Block() || inc.Block().Dominates(ex.from)) {
+					okDom = false
+					where = w.pos(blockPos(ex.from))
+				}
+			}
+			// blocks reached from the loop's body that are not part of it (the nil exit returns from there)
+			instrs(im, func(in ssa.Instruction) {
+				c, ok := in.(*ssa.Call)
+				if ok && calleeFullName(c) == "(reflect.Value).IsNil" && loop.body[c.Block()] && !instrDominates(inc, c) {
+					okDom = false
+					where = w.pos(c.Pos())
+				}
+			})
+		}
+		r.Check(okDom, rule, "internalMarshal counts a pointer level before testing it for nil", inc.Pos(), "PointerNum++ first in the peeling loop", "a pointer level can be left (nil test at "+where+") before it was counted: a typed nil pointer is written with one level too few and comes back as a value / a shallower pointer of a different dynamic type")
+	}
 }
